@@ -152,6 +152,25 @@ template <class V> std::string observe(const Sys<V>& y) {
 
 struct Outcome { bool err = false; bool has_res = false; long long res = 0; };
 
+// a temporary operand for the arithmetic with several operands: operand number q gets the index range of the
+// target T, or -- when q is the chosen position -- a variant of it (1: one shorter, 2: one longer at the top,
+// 3: shifted by one, 4: one longer at the bottom), and the values 10q+1, 10q+2, ...  (inputs only)
+template <class V> std::unique_ptr<V> make_temp(const V& T, int q, int pos, int code) {
+  typedef typename Traits<V>::elem E;
+  int lo = T.get_min_index(), hi = T.get_max_index();
+  const bool has = T.size() > 0;
+  if (q == pos) {
+    if (code == 1) { if (has) hi -= 1; }
+    else if (code == 2) { if (has) hi += 1; else { lo = 0; hi = 0; } }
+    else if (code == 3) { if (has) { lo += 1; hi += 1; } }
+    else if (code == 4) { if (has) lo -= 1; else { lo = -1; hi = -1; } }
+  }
+  std::unique_ptr<V> w(Traits<V>::make(lo, hi));
+  int j = 1;
+  for (int i = w->get_min_index(); i <= w->get_max_index(); ++i) (*w)[i] = (E)(10 * q + j++);
+  return w;
+}
+
 template <class V, bool numeric> struct NumOps {
   static bool apply(Sys<V>&, const Op&, V&, V&) { return false; }
 };
@@ -164,6 +183,9 @@ template <class V> struct NumOps<V, true> {
     else if (k == "SDiv") T /= (float)op.a;
     else if (k == "Sapyb") T.sapyb((float)op.a, O, (float)op.b);
     else if (k == "XapybV") T.xapyb(O, T, T, O);
+    else if (k == "XapybM") { auto x = make_temp(T, 1, op.a, op.b), a = make_temp(T, 2, op.a, op.b), yy = make_temp(T, 3, op.a, op.b), b = make_temp(T, 4, op.a, op.b); T.xapyb(*x, *a, *yy, *b); }
+    else if (k == "XapybSM") { auto x = make_temp(T, 1, op.a, op.b), yy = make_temp(T, 2, op.a, op.b); T.xapyb(*x, 2.F, *yy, 3.F); }
+    else if (k == "SapybM") { auto a = make_temp(T, 1, op.a, op.b), yy = make_temp(T, 2, op.a, op.b), b = make_temp(T, 3, op.a, op.b); T.sapyb(*a, *yy, *b); }
     else return false;
     return true;
   }
@@ -171,7 +193,7 @@ template <class V> struct NumOps<V, true> {
 
 template <class V> bool has_op(const std::string& k) {
   if (Traits<V>::numeric) return true;
-  return !(k == "SAdd" || k == "SSub" || k == "SMul" || k == "SDiv" || k == "Sapyb" || k == "XapybV");
+  return !(k == "SAdd" || k == "SSub" || k == "SMul" || k == "SDiv" || k == "Sapyb" || k == "XapybV" || k == "XapybM" || k == "XapybSM" || k == "SapybM");
 }
 
 // input legality: integer division by zero is outside the contract of VectorWithOffset<int>::operator/=
@@ -225,6 +247,8 @@ template <class V> Outcome execute(Sys<V>& y, const Op& op) {
     else if (k == "BSub") { std::unique_ptr<V> n(new V(Tv - Ov)); y.s[ti] = std::move(n); }
     else if (k == "BMul") { std::unique_ptr<V> n(new V(Tv * Ov)); y.s[ti] = std::move(n); }
     else if (k == "BDiv") { std::unique_ptr<V> n(new V(Tv / Ov)); y.s[ti] = std::move(n); }
+    else if (k == "VOpM") { auto w = make_temp(Tv, 1, 1, op.b); if (op.a == 0) Tv += *w; else if (op.a == 1) Tv -= *w; else if (op.a == 2) Tv *= *w; else Tv /= *w; }
+    else if (k == "BOpM") { auto w = make_temp(Tv, 1, 1, op.b); std::unique_ptr<V> n(op.a == 0 ? new V(Tv + *w) : op.a == 1 ? new V(Tv - *w) : op.a == 2 ? new V(Tv * *w) : new V(Tv / *w)); y.s[ti] = std::move(n); }
     else if (k == "MemSet") y.blk[op.a - 1] = (T)op.b;
     else if (k == "Nop") {}
     else if (!NumOps<V, Traits<V>::numeric>::apply(y, op, Tv, Ov)) { fprintf(stderr, "unknown op %s\n", k.c_str()); _exit(3); }
@@ -326,7 +350,14 @@ template <class V> Op random_op(vh::Rng& rng, const Sys<V>& y, bool calm) {
   else if (r < 78) { o.k = rng.coin() ? "ThrLo" : "ThrUp"; o.a = rng.range(-3, 6); }
   else if (r < 88) { static const char* ks[] = { "VAdd", "VSub", "VMul", "VDiv", "BAdd", "BSub", "BMul", "BDiv" }; o.k = ks[rng.range(0, 7)]; }
   else if (r < 94) { static const char* ks[] = { "SAdd", "SSub", "SMul", "SDiv" }; o.k = ks[rng.range(0, 3)]; o.a = rng.range(-2, 3); if ((o.k == "SDiv") && o.a == 0) o.a = 2; }
-  else if (r < 96) { o.k = "Sapyb"; o.a = rng.range(-2, 2); o.b = rng.range(-2, 2); }
+  else if (r < 95) { int z = rng.range(0, 5);
+                     if (z == 0) { o.k = "Sapyb"; o.a = rng.range(-2, 2); o.b = rng.range(-2, 2); }
+                     else if (z == 1) { o.k = "XapybM"; o.a = rng.range(0, 4); o.b = rng.range(1, 4); }
+                     else if (z == 2) { o.k = "XapybSM"; o.a = rng.range(0, 2); o.b = rng.range(1, 4); }
+                     else if (z == 3) { o.k = "SapybM"; o.a = rng.range(0, 3); o.b = rng.range(1, 4); }
+                     else if (z == 4) { o.k = "VOpM"; o.a = rng.range(0, 3); o.b = rng.range(0, 4); }
+                     else { o.k = "BOpM"; o.a = rng.range(0, 3); o.b = rng.range(0, 4); } }
+  else if (r < 96) { o.k = rng.coin() ? "VOpM" : "BOpM"; o.a = rng.range(0, 3); o.b = rng.range(0, 4); }
   else if (r < 97) o.k = "XapybV";
   else if (r < 100) { o.k = "MemSet"; o.t = 1; o.a = rng.range(1, y.K); o.b = rng.range(-9, 9); }
   else if (r == 200) { o.k = "Iota"; o.a = rng.range(0, 5); }
@@ -352,8 +383,22 @@ template <class V> int run_rand(const std::string& out, long first, long nseq, i
     Sys<V> y(K);
     tr.emit(vh::Json("Config").str("ty", ty).num("K", K).str("mode", "rand").num("seq", q));
     tr.emit_raw("{\"e\":\"Init\",\"ty\":\"" + ty + "\",\"K\":" + std::to_string(K) + ",\"post\":" + observe(y) + "}");
+    // systematic start of every sequence: a non-empty vector in slot 1, then every operand position of every
+    // multi-operand operation once (a = position, 0 = all compatible; b = kind of incompatibility, rotating)
+    std::vector<Op> plan;
+    { int c = (int)(q % 4); auto code = [&] { c = c % 4 + 1; return c; };
+      Op o; o.t = 1; o.k = "Construct"; o.a = rng.range(-3, 2); o.b = o.a + rng.range(0, 4); plan.push_back(o);
+      o.k = "Iota"; o.a = 1; o.b = 0; plan.push_back(o);
+      for (int pos = 0; pos <= 4; ++pos) { o.k = "XapybM"; o.a = pos; o.b = code(); plan.push_back(o); }
+      for (int pos = 0; pos <= 2; ++pos) { o.k = "XapybSM"; o.a = pos; o.b = code(); plan.push_back(o); }
+      for (int pos = 0; pos <= 3; ++pos) { o.k = "SapybM"; o.a = pos; o.b = code(); plan.push_back(o); }
+      for (int w = 0; w < 4; ++w) { o.k = w < 2 ? "VOpM" : "BOpM"; o.a = (int)((q + w) % 4); o.b = code(); plan.push_back(o); } }
+    size_t next_forced = 0;
     for (int i = 0; i < len; ++i) {
-      Op op = random_op(rng, y, large_values(y));
+      Op op;
+      while (next_forced < plan.size() && !has_op<V>(plan[next_forced].k)) ++next_forced;
+      if (next_forced < plan.size()) op = plan[next_forced++];
+      else op = random_op(rng, y, large_values(y));
       if (!callable(y, op)) { op.k = "Nop"; }
       g_cur = "\"seq\":" + std::to_string(q) + ",\"step\":" + std::to_string(i) + ",\"op\":" + op_json(op);
       tr.flush_every(64);
@@ -384,8 +429,15 @@ template <int D> int run_nd(const std::string& out, long first, long nseq, int l
     NSys<D> y(K);
     tr.emit(vh::Json("Config").str("ty", ty).num("D", D).num("K", K).str("mode", "nd").num("seq", q));
     tr.emit_raw("{\"e\":\"Init\",\"ty\":\"" + ty + "\",\"K\":" + std::to_string(K) + ",\"post\":" + observe<D>(y) + "}");
+    // every sequence starts with a non-empty array in slot 1 and the systematic sweep over the operand positions
+    std::vector<Forced> plan = sweep_plan(q);
+    size_t next_forced = 0;
     for (int i = 0; i < len; ++i) {
-      NOp op = choose<D>(rng, y, large_values<D>(y));
+      NOp op;
+      if (i == 0) { op.k = "NConstruct"; op.t = 1; op.R = rt_gen(D, rng, q % 2 == 0, false, D >= 4 ? 2 : 3, D >= 4 ? 2 : 3); op.want_contig = true; }
+      else if (i == 1) { op.k = "NIotaAll"; op.t = 1; op.a = 1; op.forked = true; }
+      else if (next_forced < plan.size() && i < len - 1) { const Forced& f = plan[next_forced++]; op = make_multi<D>(y, 1, f.k, f.pos, f.code, f.a, f.b); }
+      else op = choose<D>(rng, y, large_values<D>(y));
       g_cur = "\"seq\":" + std::to_string(q) + ",\"step\":" + std::to_string(i) + ",\"op\":" + nop_json(op);
       tr.flush_every(64);
       NOutcome o; bool aborted = false;
